@@ -106,6 +106,14 @@ def sigText : Sig → String
   | .plainErr _ => "ERRPLAIN"
   | .panic => "PANIC" | .fuel => "HANG" | .unsupported w => "UNSUP " ++ w
 
+/-- `sigText` plus the class of the error and what it carries (see evErrFull in evalcommon.go) -/
+def sigTextFull (st : St) : Sig → String
+  | .err e none => s!"ERR {hexEnc (strBytes e.type)} {e.line} {e.pos} R"
+  | .err e (some (d, v)) => s!"ERR {hexEnc (strBytes e.type)} {e.line} {e.pos} D {hexEnc d} {canonVal st canonDepth v}"
+  | .ret e v => s!"ERR {hexEnc (strBytes e.type)} {e.line} {e.pos} V {canonVal st canonDepth v}"
+  | .iter e _ => s!"ERR {hexEnc (strBytes e.type)} {e.line} {e.pos} R"
+  | s => sigText s
+
 def logText (st : St) : String := "|".intercalate st.log.toList
 
 /-- canonical outcome (see evalcommon.go) -/
@@ -121,6 +129,14 @@ def outcomeText : Result → String
     | .ok v =>
       let t := "OK " ++ canonVal st canonDepth v ++ " LOG " ++ logText st
       if t.contains '?' then "UNSUP result shows a value the model does not know" else t
+
+/-- `outcomeText` with `sigTextFull` for the final error -/
+def outcomeTextFull : Result → String
+  | .done (.error (.err e wd)) st => sigTextFull st (.err e wd) ++ " LOG " ++ logText st
+  | .done (.error (.ret e v)) st => sigTextFull st (.ret e v) ++ " LOG " ++ logText st
+  | .done (.error (.iter e c)) st => sigTextFull st (.iter e c) ++ " LOG " ++ logText st
+  | .invalid e => "V " ++ sigTextFull {} e
+  | r => outcomeText r
 
 def runPayload (p : String) : String :=
   match decodePayload p with
